@@ -908,7 +908,7 @@ def c09(ctx):
         exhaustive=not quick)
 
 
-def gen_engine(ctx, fconf):
+def gen_engine(ctx, fconf, race=False):
     """Generate the catalogue's type systems afresh with schema/gen/go of the working tree, compile them with the runner.
     Returns the runner binary, or None when the generated package does not compile (recorded as a finding)."""
     import shutil
@@ -926,9 +926,9 @@ def gen_engine(ctx, fconf):
     # (2) the generated package must compile (together with the runner)
     os.makedirs(os.path.join(src, "cmd", "genrun"), exist_ok=True)
     shutil.copy(os.path.join(src, "gentmpl", "genrun_main.go.txt"), os.path.join(src, "cmd", "genrun", "main.go"))
-    genrun = os.path.join(ctx.scratch, "genrun")
+    genrun = os.path.join(ctx.scratch, "genrun-race" if race else "genrun")
     t0 = time.time()
-    p = subprocess.run(["go", "build", "-tags", "verif", "-o", genrun, "./cmd/genrun"], cwd=src, env=ctx.goenv(),
+    p = subprocess.run(["go", "build", "-tags", "verif"] + (["-race"] if race else []) + ["-o", genrun, "./cmd/genrun"], cwd=src, env=ctx.goenv(),
                        stdout=subprocess.PIPE, stderr=subprocess.STDOUT, text=True)
     ctx.log("generated package + runner compiled in %.1fs (rc=%d)" % (time.time() - t0, p.returncode))
     if p.returncode != 0:
@@ -1009,15 +1009,16 @@ def c19(ctx):
 
 
 # --------------------------------------------------------------------------- concurrency
-def cc_cfg(ng, opsper):
+def cc_cfg(ng, opsper, withgen=False):
     return """SPECIFICATION Spec
 CONSTANTS
   NG = %d
   OpsPer = %d
   OpNames <- AllOps
+  WithGen = %s
 INVARIANTS NoConflict Emit
 CHECK_DEADLOCK FALSE
-""" % (ng, opsper)
+""" % (ng, opsper, "TRUE" if withgen else "FALSE")
 
 
 @prop("C20")
@@ -1032,13 +1033,26 @@ def c20(ctx):
         args = ["conc", "-in", f, "-iters", str(iters)]
         rep = ctx.vh_run(args, race=True, race_target="concurrent", timeout=3000)
         ctx.absorb(rep, args, label="conc/%dx%d" % (ng, opsper), race=True, race_target="concurrent")
+    # nodes and prototypes of freshly generated code as shared objects: the mixes that involve one of them, run by the
+    # runner that is compiled (with -race) together with the generated package
+    fconf = schema_cases(ctx, "conforming", 1, "conf")
+    genrun = gen_engine(ctx, fconf, race=True)
+    if genrun is not None:
+        for ng, iters in ((2, 30), (3, 6 if quick else 20)):
+            f = os.path.join(ctx.scratch, "ccg-%d.ndjson" % ng)
+            ctx.tlc("ConcurrencyGen", cc_cfg(ng, 1, withgen=True), capture=f, workers=8, timeout=2400)
+            args = ["conc", "-in", f, "-iters", str(iters)]
+            rep = ctx.vh_run(args, race=True, race_target="concurrent", timeout=3000, binary=genrun)
+            ctx.absorb(rep, args, label="conc-gen/%dx1" % ng, race=True, race_target="concurrent", binary=genrun)
     return ctx.finish(
         "exploration",
         rule="mixes = every assignment of one operation to each of 2 and of 3 goroutines from 15 read-only operations (full "
              "read of generic / reflection-bound / representation nodes, DeepEqual, Copy, dag-cbor and dag-json encode, a "
              "walk with a shared compiled selector and Config across links, Load and LoadRaw through a shared link system "
              "over a read-only store, building from shared prototypes, Wrap with an explicit schema, Prototype with an "
-             "inferred schema, first field lookups on a freshly created struct type); TLC checks NoConflict on the declared "
+             "inferred schema, first field lookups on a freshly created struct type, copying a type out of / merging a shared "
+             "type system; and, in a runner compiled with freshly generated code: full read of a generated node and of its "
+             "representation, encoding it, copying it, building from the shared generated prototype); TLC checks NoConflict on the declared "
              "footprints for every interleaving of begin/end and emits the mixes; each mix runs free-running under the Go "
              "race detector with every result compared to the sequential run; non-trivial = every mix; distinct = distinct "
              "mixes",
@@ -1086,6 +1100,15 @@ def c11(ctx):
             args = ["immutable", "-in", f]
             ctx.absorb(ctx.vh_run(args, timeout=5000), args, label="immutable/" + pr)
             os.remove(f)
+    # nodes produced by the builder of freshly generated code (the runner compiled together with the generated package)
+    fconf = schema_cases(ctx, "conforming", 1, "conf")
+    genrun = gen_engine(ctx, fconf)
+    if genrun is not None:
+        f = os.path.join(ctx.scratch, "im-gen.ndjson")
+        ctx.tlc("ImmutableGen", im_cfg(3 if quick else 4, 3, "gen"), capture=f, workers=8, heap="5g", timeout=3000)
+        args = ["immutable", "-in", f]
+        ctx.absorb(ctx.vh_run(args, timeout=3000, binary=genrun), args, label="immutable/gen", binary=genrun)
+        os.remove(f)
     # B2: recorded builder sessions (Build / Reset / reuse): every node returned is re-read after every later call
     asm_trace_stage(ctx, 30 if quick else 200, 300)
     return ctx.finish(
@@ -1095,7 +1118,8 @@ def c11(ctx):
              "AssignNode into a container that is then extended, AssignNode at top level then Reset and reuse of that "
              "builder, Reset and reuse of the PRODUCING builder, matching walk, subset-matching walk (new sliced nodes), "
              "focused transform (new node), store + load (new node)} applied to any node alive, starting from a node made by "
-             "5 producers (basicnode Any / kind-specific builders, bindnode, dag-cbor decoder, dag-json decoder) x 3 values; "
+             "5 producers (basicnode Any / kind-specific builders, bindnode, dag-cbor decoder, dag-json decoder) x 3 values, and "
+             "from a node of a struct type of freshly generated code (built, reset and reused through the generated builder); "
              "after EVERY operation EVERY finished node is read twice in full (all read forms, byte content through AsBytes "
              "and a fresh AsLargeBytes reader) and compared with the value it had when it was returned; non-trivial = every "
              "history; distinct = distinct (producer, value, operation sequence)",
